@@ -185,6 +185,8 @@ class Report:
             'violations': len(self.violations),
         }
         path = os.path.join(EVIDENCE_DIR, '%s.json' % self.prop)
+        if os.environ.get('VERIF_NO_EVIDENCE'):
+            path = os.path.join(REPLAY_DIR, 'scratch-evidence-%s.json' % self.prop)
         with open(path, 'w') as f:
             json.dump(ev, f, indent=1, sort_keys=True)
         print('%s tier=%s states=%s transitions=%s executions=%s violations=%d known=%d wall=%.1fs' % (
